@@ -140,9 +140,9 @@ func TestCheck(t *testing.T) {
 			"the non-trivial classification is only made without background compaction (the engine's own AdjustThrottle may release the manual throttle)",
 		},
 	}
-	pbt.Add(s, &pbt.Spec[Case]{Name: "live", Gen: gen, Run: run, Quick: 500, Thorough: 8000, Shards: 8, Nondet: true, Timeout: 20 * time.Minute})
+	pbt.Add(s, &pbt.Spec[Case]{Name: "live", Gen: gen, Run: run, Quick: 400, Thorough: 6000, Shards: 8, Nondet: true, Timeout: 20 * time.Minute})
 	if pbt.Tier() == "thorough" {
-		pbt.Add(s, &pbt.Spec[RaceCase]{Name: "race", Run: runRace, Static: raceCases, Nondet: true})
+		pbt.Add(s, &pbt.Spec[RaceCase]{Name: "race", Gen: genRace, Run: runRace, Static: raceCases, Nondet: true})
 	}
 	s.Main(t)
 }
